@@ -11,6 +11,7 @@ from .. import gens
 from ..harness import Sub, Violation
 
 QUICK_SCALE = 3  # quick budgets below are multiplied by this (kept at about half a minute on 8 processes)
+THOROUGH_SCALE = 12  # thorough budgets below are multiplied by this (about ten minutes on 16 processes)
 
 RULE = ("fitted Kauri trees (n up to 40, d up to 5, ties, data scaled by 1e-12..1e5), feature-name lists of unique generated strings (letters, "
         "digits, spaces, punctuation) of length >= d, between max-used-index+1 and d, too short, or None; stdout is parsed "
